@@ -27,6 +27,9 @@ func normalizeIntervalUnit(unit string) string {
 	// Handle SQL_TSI_* prefixes (SQL ODBC standard)
 	if strings.HasPrefix(u, "sql_tsi_") {
 		u = u[8:] // Remove "sql_tsi_" prefix
+		if len(u) == 0 {
+			return "" // a bare "SQL_TSI_" names no unit
+		}
 	}
 
 	// Handle SQL standard abbreviations and ClickHouse short notations
